@@ -488,13 +488,21 @@ impl Retrier {
         while self.has_pending_appointments() {
             let locators = self.pending_appointments.lock().unwrap().clone();
             for locator in locators.into_iter() {
+                // The appointment may not be there anymore (e.g. the tower was abandoned, and registered again, while it was
+                // waiting to be retried). There is nothing to send in that case.
                 let appointment = self
                     .wt_client
                     .lock()
                     .unwrap()
                     .dbm
-                    .load_appointment(locator)
-                    .unwrap();
+                    .load_appointment(locator);
+                let appointment = match appointment {
+                    Some(appointment) => appointment,
+                    None => {
+                        self.pending_appointments.lock().unwrap().remove(&locator);
+                        continue;
+                    }
+                };
 
                 match http::add_appointment(
                     tower_id,
